@@ -4,6 +4,7 @@ import (
 	"fmt"
 	"sort"
 	"strings"
+	"syscall"
 
 	btapb "cloud.google.com/go/bigtable/admin/apiv2/adminpb"
 	btpb "cloud.google.com/go/bigtable/apiv2/bigtablepb"
@@ -121,7 +122,7 @@ func c14CheckAll(srv *drive.Srv, reg c14Registry) string {
 }
 
 func runC14(run *common.Run) {
-	run.Rule = "case = one program on one engine: 40-120 admin and data requests over 2 parents (one a string prefix of the other) x 3 table ids: CreateTable with families and GC rules, DeleteTable, re-create, ModifyColumnFamilies with 1-4 modifications (create/update/drop, a failing one at any position, create-then-drop and drop-then-create of one id), DropRowRange (12 prefixes incl. empty, whole keys, ...\\xff, no match; delete-all), MutateRow and ReadModifyWriteRow appends. After EVERY request: ListTables per parent, GetTable + full scan of every live table, NotFound probes (GetTable, MutateRow, ReadRows) on every non-existent name, all compared with a registry + data model. Part 'big': prefix drops of 1 / 10 / 100 / 1000+ rows (incl. prefixes made of 0xff bytes), a family drop, a drop-and-re-create of one family in one request and a delete-all on a table of 1500-3000 rows, whole table compared after every request. Non-trivial = program contained at least three of: a failed multi-modification request, a family drop that removed cells, a prefix drop that removed some but not all rows, a delete-and-re-create of a table (each counted separately in 'observed'); distinct by program x engine."
+	run.Rule = "case = one program on one engine: 40-120 admin and data requests over 2 parents (one a string prefix of the other) x 3 table ids: CreateTable with families and GC rules, DeleteTable, re-create, ModifyColumnFamilies with 1-4 modifications (create/update/drop, a failing one at any position, create-then-drop and drop-then-create of one id), DropRowRange (12 prefixes incl. empty, whole keys, ...\\xff, no match; delete-all), MutateRow and ReadModifyWriteRow appends. After EVERY request: ListTables per parent, GetTable + full scan of every live table, NotFound probes (GetTable, MutateRow, ReadRows) on every non-existent name, all compared with a registry + data model. Part 'churn': 1500 (thorough 20000) create / write / read / delete cycles of a table on one long-lived server per engine under a descriptor limit of 2048: every request succeeds, every re-created table starts empty. Part 'big': prefix drops of 1 / 10 / 100 / 1000+ rows (incl. prefixes made of 0xff bytes), a family drop, a drop-and-re-create of one family in one request and a delete-all on a table of 1500-3000 rows, whole table compared after every request. Non-trivial = program contained at least three of: a failed multi-modification request, a family drop that removed cells, a prefix drop that removed some but not all rows, a delete-and-re-create of a table (each counted separately in 'observed'); distinct by program x engine."
 	run.Assumptions = []string{"DropRowRange with an empty prefix may be rejected or remove every row", "ModifyColumnFamilies error codes are not compared (any non-OK), CreateTable on an existing table must be AlreadyExists, requests on missing tables NotFound"}
 	j := common.NewJournal("C14")
 	nprog := run.N(150, 1500)
@@ -139,6 +140,9 @@ func runC14(run *common.Run) {
 		c14Program(run, prog, engine, i)
 		j.End(i % 64)
 	})
+	if run.WantSub("churn") && !run.TooMany() {
+		c14Churn(run)
+	}
 	if run.WantSub("big") {
 		nbig := run.N(4, 40)
 		common.Parallel(nbig*3, workers(), func(i int) {
@@ -150,6 +154,66 @@ func runC14(run *common.Run) {
 			c14Big(run, prog, engine, i)
 			j.End(i % 64)
 		})
+	}
+}
+
+// c14Churn: one long-lived server per engine on which a table is created, written, read, deleted and created again
+// 1500 (thorough: 20000) times. The process's file-descriptor limit is lowered to 2048 for the duration: a server that
+// keeps something open per deleted table stops serving valid requests after a few hundred cycles. Every request of
+// every cycle must succeed and every re-created table must start empty.
+func c14Churn(run *common.Run) {
+	var old syscall.Rlimit
+	if err := syscall.Getrlimit(syscall.RLIMIT_NOFILE, &old); err == nil && old.Cur > 2048 {
+		lim := old
+		lim.Cur = 2048
+		if syscall.Setrlimit(syscall.RLIMIT_NOFILE, &lim) == nil {
+			defer syscall.Setrlimit(syscall.RLIMIT_NOFILE, &old)
+		}
+	}
+	cycles := run.N(1500, 20000)
+	for ei, engine := range drive.Engines {
+		if !run.Want("churn", ei) || run.TooMany() {
+			continue
+		}
+		srv, err := drive.Start(engine, gen.BaseClock, "")
+		if err != nil {
+			run.Violation("churn", ei, "cannot start server: "+err.Error(), nil)
+			return
+		}
+		bad := ""
+		c := 0
+		for ; c < cycles && bad == ""; c++ {
+			id := fmt.Sprintf("churn%d", c%3)
+			name := drive.TableName(drive.Parent, id)
+			if st := drive.CreateTable(srv.Admin, drive.Parent, id, map[string]*model.GcRule{"f": nil}); !st.OK() {
+				bad = "CreateTable failed: " + st.String()
+				break
+			}
+			if res := drive.ReadAll(srv.Data, name); !res.OK() || len(res.Rows) != 0 {
+				bad = fmt.Sprintf("a re-created table does not start empty: %s, %d rows", res.Code, len(res.Rows))
+				break
+			}
+			if st := drive.MutateRow(srv.Data, name, "k", []model.Mut{{Kind: model.SetCell, Fam: "f", Qual: "q", TS: 1000, Val: fmt.Sprint("v", c)}}); !st.OK() {
+				bad = "MutateRow failed: " + st.String()
+				break
+			}
+			if res := drive.ReadAll(srv.Data, name); !res.OK() || len(res.Rows) != 1 {
+				bad = fmt.Sprintf("read after write: %s, %d rows", res.Code, len(res.Rows))
+				break
+			}
+			ctx, cancel := drive.Ctx()
+			_, err := srv.Admin.DeleteTable(ctx, &btapb.DeleteTableRequest{Name: name})
+			cancel()
+			if err != nil {
+				bad = "DeleteTable failed: " + err.Error()
+			}
+		}
+		if bad != "" {
+			run.Violation("churn", ei, fmt.Sprintf("in cycle %d of create / write / read / delete on one server (engine %s, descriptor limit 2048): %s", c, engine, bad), map[string]any{"engine": engine, "cycle": c})
+		}
+		run.Case(common.Hash64("churn", engine), true)
+		run.Count("table_create_delete_cycles", int64(c))
+		srv.Close(true)
 	}
 }
 
